@@ -283,6 +283,27 @@ def run (ctx, repo, mods, type_parser_classes, fallback_classes=()):
               ctx.ob('R-DEF', pf, "`%s` is not reached while self.%s is None" % (use, F), guarded, "guarded by a test of self.%s" % F if guarded else
                      "%s.unpack_new can return an object whose %s was never assigned (it is set only on some paths, __init__ leaves it None) and %s() applies `%s` to it: packing the parse result raises TypeError"
                      % (cls.name, F, name, use), (cls.module, x), 'D4')
+  # ---- E10 addresses taken from the frame: six raw bytes are an address whatever they look like -------------------------
+  try: am = repo.mod('lib.addresses'); ea = am.classes.get('EthAddr')
+  except Exception: ea = None
+  ei = ea.methods.get('__init__') if ea is not None else None
+  if ei is not None:
+    ctx.analysed(ei); ge = q.cfg_of(ei)
+    ap = ei.params[1]
+    bad_s = []; unknown = 0
+    for sample in (b':::::X', b'::::::', b'-----\x00', b'\x00\x01\x02\x03\x04\x05', b'0a:b0c'):
+      isb = lambda e, want: isinstance(e, ast.Call) and call_name(e) == 'isinstance' and len(e.args) == 2 and norm(e.args[0]) == ap and want in norm(e.args[1])
+      ms = [((lambda e: isb(e, 'bytes') and 'str' not in norm(e.args[1])), True), ((lambda e: isb(e, 'str') and 'bytes' not in norm(e.args[1])), False), ((lambda e: isb(e, 'EthAddr')), False)]
+      paths = q.paths_under(repo, am, ge, q.Env({ap: sample}, ms), ge.entry, [ge.exit] + [n for n in ge.nodes if n.kind == 'raise_stmt'], ea, limit=40)
+      if len(paths) != 1: unknown += 1; continue
+      p_, e_ = paths[0]
+      textual = [n for n in p_ if any(call_name(c) == 'int' and len(c.args) == 2 for c in q.node_calls(n)) or n.kind == 'raise_stmt']
+      if textual or e_.exact.get('self._value', sample) != sample: bad_s.append((sample, textual[0].text(50) if textual else 'value changed'))
+    if unknown:
+      ctx.undecided('R-DOM', ei, "six raw bytes from a frame are taken as they are", "%d sample(s) not evaluable" % unknown, ei, 'D1')
+    else:
+      ctx.ob('R-DOM', ei, "six raw bytes from a frame are taken as they are", not bad_s, "5 six-byte samples (colons, dashes, hex digits among them) stored unchanged" if not bad_s else
+             "EthAddr(%r) - six raw bytes, as ethernet.parse / arp.parse / dhcp.parse pass them - is treated as text (`%s`): parsing a frame whose MAC address happens to consist of such bytes raises out of the parser" % bad_s[0], ei, 'D1')
   ctx.stat('own __str__ methods examined', n_str); ctx.stat('tuple-arity sites', n_arity); ctx.stat('self-nesting dispatch sites', n_rec); ctx.stat('TLV value slices compared', n_tlv)
 
 def tlv_value_slices (ctx, classes, clause):
